@@ -1,7 +1,7 @@
 """C01 - seeded word generators equal the published algorithms, for every seed and history."""
 from . import common as C
 
-LEAN_MODULE = ["Urandom.Props.C01", "Urandom.Props.C01T", "Urandom.Props.C10T", "Urandom.Props.C01R"]
+LEAN_MODULE = ["Urandom.Props.C01", "Urandom.Props.C01T", "Urandom.Props.C10T", "Urandom.Props.C01R", "Urandom.Props.C17R"]
 
 
 def disagreement_is_failing(req, impl, model):
